@@ -1055,8 +1055,11 @@ def _history_oracle(case, out):
         a, b = out["ref"][_key(o["split"], True)], out["ref"][_key(o["split"], False)]
         if a["index"] != b["index"] or b["columns"] != a["columns"] + ["class_val"] \
                 or a["rows"] != b["rows"] or a["y"] != b["y"]:
-            return "split-forms-inconsistent: split=%r (X, y) form %s vs single frame %s" % (
-                o["split"], _summ(a), _summ(b))
+            what = "index %s... vs %s..." % (a["index"][:3], b["index"][:3]) \
+                if a["index"] != b["index"] else _first_diff(
+                    a, dict(b, form="xy", columns=[c for c in b["columns"] if c != "class_val"]))
+            return "split-forms-inconsistent: split=%r (X, y) form %s vs single frame %s: %s" % (
+                o["split"], _summ(a), _summ(b), what)
     if "err" in out:
         return "loader-result-depends-on-history: a call that works as a first call raised " \
                "inside the history: %s" % out["err"]
